@@ -182,7 +182,13 @@ fn to_quadratic(coeff_map: &HashMap<(usize, usize), f64>) -> v1::Quadratic {
     for ((row, col), val) in coeff_map.iter() {
         rows.push(*row as u64);
         columns.push(*col as u64);
-        values.push(*val);
+        // QPLIB lists the lower triangle of the symmetric matrix Q of `1/2 x^T Q x`:
+        // an off-diagonal entry stands for both (i, j) and (j, i), a diagonal entry is halved.
+        if row == col {
+            values.push(*val / 2.0);
+        } else {
+            values.push(*val);
+        }
     }
     v1::Quadratic {
         rows,
